@@ -910,6 +910,7 @@ func (p c16) whenPath(c *core.Ctx, t c16type, op, lit string) {
 	if t.name != "string" || op != "=" {
 		return
 	}
+	p.whenThroughGuardedList(c, load, read)
 	// list/key = 'literal'
 	keys := []string{"plain", "a/b", "ge-0/0/1", "x,y", "1+1", "100%", "q?x", "a b", "k=v", "#h", "a&b"}
 	for _, l := range keys {
@@ -948,6 +949,69 @@ func (p c16) whenPath(c *core.Ctx, t c16type, op, lit string) {
 				}
 				c.Violate("when/"+cls+"/when-path/list-key", "%q is %v for this data\n%s", expr, present, wit)
 			}
+		}
+	}
+}
+
+// whenThroughGuardedList: the path of a when goes through a list whose entries are themselves guarded by a when (evaluated per entry).
+// Entries whose when is false are invisible - to the expression as to any reader - and the ones after them are not: the condition holds
+// exactly when some VISIBLE entry satisfies the comparison, wherever the hidden entries stand in the list.
+func (p c16) whenThroughGuardedList(c *core.Ctx, load func(string) *meta.Module, read func(*meta.Module, string) (map[string]interface{}, string, error)) {
+	body := "list l { when \"on='true'\"; key k; leaf k { type string; } leaf on { type boolean; } leaf v { type int32; } } leaf g { when \"l/v>100\"; type string; } leaf q { type string; }"
+	var mod *meta.Module
+	if c.Guard("load", func() { mod = load(body) }) || mod == nil {
+		return
+	}
+	type ent struct {
+		on bool
+		v  int
+	}
+	// every list of up to three entries over {visible, hidden} x {satisfies, does not}
+	kinds := []ent{{true, 150}, {true, 50}, {false, 150}, {false, 50}}
+	var lists [][]ent
+	for _, a := range kinds {
+		lists = append(lists, []ent{a})
+		for _, b := range kinds {
+			lists = append(lists, []ent{a, b})
+			for _, d := range kinds {
+				lists = append(lists, []ent{a, b, d})
+			}
+		}
+	}
+	for _, es := range lists {
+		c.Eval()
+		want := false
+		var parts []string
+		shape := ""
+		for i, e := range es {
+			if e.on && e.v > 100 {
+				want = true
+			}
+			parts = append(parts, fmt.Sprintf("{\"k\":\"e%d\",\"on\":%v,\"v\":%d}", i, e.on, e.v))
+			shape += map[bool]string{true: "V", false: "H"}[e.on] + map[bool]string{true: "+", false: "-"}[e.v > 100]
+		}
+		doc := "{\"l\":[" + strings.Join(parts, ",") + "],\"g\":\"x\",\"q\":\"keep\"}"
+		c.Shape("when-path/guarded-list/%s", shape)
+		var top map[string]interface{}
+		var js string
+		var err error
+		if c.Guard("read through guarded list", func() { top, js, err = read(mod, doc) }) {
+			continue
+		}
+		wit := fmt.Sprintf("schema: %s\ndata: %s\noutput: %s", body, doc, js)
+		if err != nil {
+			c.Violate("when/error/when-path/guarded-list", "read failed: %v\n%s", err, wit)
+			continue
+		}
+		if _, vis := top["g"]; vis != want {
+			cls := "false-but-visible"
+			if want {
+				cls = "true-but-hidden"
+			}
+			c.Violate("when/"+cls+"/when-path/guarded-list", "l/v>100 over the visible entries (%s: V visible, H hidden by the list's when, + satisfies) is %v\n%s", shape, want, wit)
+		}
+		if top["q"] != "keep" {
+			c.Violate("when/hides-too-much/when-path/guarded-list", "the sibling leaf disappeared\n%s", wit)
 		}
 	}
 }
